@@ -4,8 +4,12 @@
   `dbg`); it only matters for `div_ceil`, `div_floor`, `next_multiple_of`,
   `checked_next_multiple_of` (all other results are profile independent).
   Spec answers: `P` = must panic (zero divisor; `MIN / -1` for the panicking forms; overflow of
-  `next_multiple_of` in debug), `*` = left open by the property (signed `div_floor`/`div_ceil` of
-  `MIN / -1`).
+  `next_multiple_of` in debug).  Signed `div_floor`/`div_ceil` of `MIN / -1` is the one request
+  the property statement does not pin down (these two methods have no overflow channel, and the
+  statement's list of `MIN / -1` results names the checked / overflowing / wrapping / saturating
+  forms only): the spec accepts exactly the two readings `P` ("reported as overflow" by a panic, as
+  the primitive types do) and the wrapped exact quotient `MIN` (what the crate returns, theorem
+  `C03.i_divFloor_divCeil_min_neg_one`) — any other value is a violation.
 -/
 import Bnum.Drive.Util
 import Bnum.Model.Div
@@ -40,7 +44,8 @@ def handle : Handler := fun c op args =>
     let spOverflowing (k : DivKind) := if y = 0 then "P" else spPair (overflowingDivLike sg m k x y)
     let spWrapping (k : DivKind) := if y = 0 then "P" else toHex (wrapU m (k.eval x y))
     let spPanicking (k : DivKind) := if y = 0 || ovf then "P" else toHex (wrapU m (k.eval x y))
-    let spOpen (k : DivKind) := if y = 0 then "P" else if ovf then "*" else toHex (wrapU m (k.eval x y))
+    let spOpen (k : DivKind) :=
+      if y = 0 then "P" else if ovf then "P|" ++ toHex (wrapU m (k.eval x y)) else toHex (wrapU m (k.eval x y))
     match op with
     | "checked_div" =>
       some (moO c (if sg then II.checkedDiv dbg w a b else UI.checkedDiv w a b), spChecked .tdiv)
